@@ -186,7 +186,7 @@ def make_data(rng, darsia, spec, desc, letter, cache):
     if desc["data_kind"] == "image":
         h = spec["voxel_size"]
         obj = darsia.Image(arr.copy(), space_dim=dim, dimensions=[shape[d] * h[d] for d in range(dim)],
-                           scalar=desc["payload"] == "scalar", series=desc["payload"].startswith("series"),
+                           scalar=desc["payload"] in ("scalar", "series"), series=desc["payload"].startswith("series"),
                            time=[float(t) for t in range(4)] if desc["payload"].startswith("series") else None)
     else:
         obj = arr.copy()
@@ -279,7 +279,7 @@ def run_shard(spec_, R):
                 # normalisation (Images, positive data so that the ratio is well conditioned)
                 if True:
                     h = spec["voxel_size"]
-                    kw = dict(space_dim=dim, dimensions=[spec["shape"][d] * h[d] for d in range(dim)], scalar=desc["payload"] == "scalar",
+                    kw = dict(space_dim=dim, dimensions=[spec["shape"][d] * h[d] for d in range(dim)], scalar=desc["payload"] in ("scalar", "series"),
                               series=desc["payload"].startswith("series"))
                     if desc["payload"].startswith("series"):
                         kw["time"] = [0.0, 1.0, 2.0, 3.0]
